@@ -54,7 +54,9 @@ Inductive case :=
   | TValidator (q : vquery) (accepted : bool)
   (* an entry point: one stage per object involved (its chains run in order on its state) *)
   | TRun (stages : list (list entry * estate)) (i : call_in) (accepted : bool)
-         (fitted : option bool).
+         (fitted : option bool)
+  (* the same call seen by the first model and by the regenerated chain of its entry point *)
+  | TBoth (a b : case).
 
 Definition olist_eqb (a b : option (list Z)) : bool :=
   match a, b with
@@ -74,7 +76,7 @@ Definition first_fitted (st : list (list entry * estate)) (i : call_in) : bool :
   | [] => false
   end.
 
-Definition check (c : case) : bool :=
+Fixpoint check (c : case) : bool :=
   match c with
   | TSetting v none_ok acc => Bool.eqb (if none_ok then posint_or_none_ok v else posint_ok v) acc
   | TSliding i acc => Bool.eqb (is_ok (sliding_entry i)) acc
@@ -97,6 +99,7 @@ Definition check (c : case) : bool :=
   | TRun st i acc fit =>
       Bool.eqb (run_stages st i) acc &&
       match fit with Some b => Bool.eqb (first_fitted st i) b | None => true end
+  | TBoth a b => check a && check b
   end.
 
 Fixpoint mism (cs : list (Z * case)) : list Z :=
